@@ -85,6 +85,10 @@ def main(tier, replay=None):
             # 12-byte records without Swap / Assign instances of their own: the library's byte-wise defaults move them
             camp.run(seqgen.header("Odd12", list(range(-3, 5))), [seqgen.random_history(rng, kind, 8, big(), maxlen=ml)
                                                                   for _ in range(max(4, nexec // 2))], "random/%s/Odd12" % kind, variant=kind)
+        if kind != "Tuple":
+            # records whose type has its own Swap instance: sort exchanges elements through it
+            camp.run(seqgen.header("Swp", list(range(-3, 5))), [seqgen.random_history(rng, kind, 8, big(), maxlen=ml, xassign=False)
+                                                                for _ in range(max(4, nexec // 2))], "random/%s/Swp" % kind, variant=kind)
         # 16-byte records with no instances at all (mem / rem / sort go through the default byte-wise comparison); different
         # values share their first 8 bytes
         camp.run(seqgen.header("Pair16", list(range(0, 8))), [seqgen.random_history(rng, kind, 8, big(), maxlen=ml, xassign=False)
